@@ -75,6 +75,11 @@ pub struct Embedding {
     /// different lengths)
     #[serde(default)]
     pub lopsided: bool,
+    /// ctop: model bits on top, the members of a group differ only in the last 40 bits (each group is a run of
+    /// keys sharing more than 200 bits, the groups themselves are far apart: branch nodes whose first separators
+    /// are prefix-compressed and whose later ones are stored in full)
+    #[serde(default)]
+    pub narrow: bool,
 }
 
 impl Embedding {
@@ -87,7 +92,7 @@ impl Embedding {
         } else {
             (full_name, 0u8)
         };
-        let (prefix, stride, clustered) = if name == "top" {
+        let (prefix, stride, clustered) = if name == "top" || name == "ctop" {
             (0, 1, true)
         } else if name == "tail" {
             (256 - nbits, 1, true)
@@ -115,6 +120,7 @@ impl Embedding {
             filler_seed: seed,
             filler_mode,
             lopsided: name.starts_with("lopsided("),
+            narrow: name == "ctop",
         }
     }
 
@@ -137,7 +143,9 @@ impl Embedding {
         // where members of one group differ: below the model bits if there is room, else in the
         // 40 bits just above the shared prefix's end (24 bits gave a birthday collision among 1200 keys
         // in a few percent of the scripts: "concretisation produced duplicate keys")
-        let (vlo, vhi) = if !self.clustered {
+        let (vlo, vhi) = if self.narrow {
+            (216usize, 256usize)
+        } else if !self.clustered {
             (0usize, 256usize)
         } else if 255 - last_model >= 40 {
             (last_model + 1, 256)
